@@ -20,6 +20,15 @@ fn mo_prelude(ctx: &Ctx) -> String {
 }
 
 pub fn check_case(ctx: &Ctx, tape: &[u8], cfg: &Cfg, stats: &mut Stats) -> Result<(), Fail> {
+    let t_case = std::time::Instant::now();
+    let r = check_case_inner(ctx, tape, cfg, stats);
+    if t_case.elapsed().as_secs_f64() > 1.5 && std::env::var_os("VERIF_TIMING").is_some() {
+        eprintln!("SLOW case {:.1}s tape {} bytes", t_case.elapsed().as_secs_f64(), tape.len());
+    }
+    r
+}
+
+fn check_case_inner(ctx: &Ctx, tape: &[u8], cfg: &Cfg, stats: &mut Stats) -> Result<(), Fail> {
     let g = generate::gen_mo_program(tape, cfg);
     // reference semantics of the plain body
     let reference = eval::run(&g.prog, b"", 300_000);
@@ -121,7 +130,12 @@ def ! ret_monad : Monad Ret =\n  comatch\n  | .return A value => ret value\n  | 
         let path2 = thread_dir(ctx).join("mo2.zy");
         std::fs::write(&path2, &text2).expect("write case");
         let session2 = CompilerSession::default();
-        match drive::analyze_executable(&session2, &path2) {
+        let t0 = std::time::Instant::now();
+        let analyzed2 = drive::analyze_executable(&session2, &path2);
+        if t0.elapsed().as_secs_f64() > 2.0 && std::env::var_os("VERIF_TIMING").is_some() {
+            eprintln!("SLOW mo2 analysis {:.1}s, {} bytes", t0.elapsed().as_secs_f64(), text2.len());
+        }
+        match analyzed2 {
             | Analyzed::Executable(exe, _) => {
                 let run = drive::run_executable(exe, b"", &[], 1_000_000);
                 if let RunEnd::Stuck { msg, file, line } = &run.end {
@@ -159,7 +173,12 @@ do p4 <- ! translated_again Ret {{ ! ret_monad }} ; ! show p4 {{\n\
     std::fs::write(&path, &text).expect("write case");
     let session = CompilerSession::default();
     let case = |extra: Value| json!({"source": text[text.find("begin\n").unwrap_or(0)..].to_string(), "reference_stdout": expected, "info": extra});
-    match drive::analyze_executable(&session, &path) {
+    let t1 = std::time::Instant::now();
+    let analyzed1 = drive::analyze_executable(&session, &path);
+    if t1.elapsed().as_secs_f64() > 2.0 && std::env::var_os("VERIF_TIMING").is_some() {
+        eprintln!("SLOW main analysis {:.1}s, {} bytes, globals {n_globals}", t1.elapsed().as_secs_f64(), text.len());
+    }
+    match analyzed1 {
         | Analyzed::Panic(p) => Err(Fail::new(format!("analysis-{}", p.signature()), "analysis to return", p.describe()).with(case(json!({})))),
         | Analyzed::NotAccepted(front) => {
             let kind = front.kinds.first().cloned().unwrap_or_default();
